@@ -55,3 +55,6 @@ def run(ctx):
     ctx.floor("W2", 4)
     ctx.floor("W3", 4)
     ctx.floor("T1", 4)
+    from ..engines import statepickle as RR
+    RR.r8_one_shot_iterables_not_kept(ctx)
+    ctx.floor("R8", 1)
